@@ -83,6 +83,13 @@ class ExprGen:
             t = rng.choice(["num", "bool", "str", "null"])         # deliberate type error
         if d <= 0 or rng.random() < 0.15:
             e = self.leaf(t)
+        elif t == "num" and rng.random() < 0.08:
+            # 自增 / 自减 on a value of its own (a literal, an operator result) gives the sum / difference, and the literal
+            # keeps denoting its number wherever else it is written
+            x = float(rng.randrange(0, 9))
+            recv = Num(x) if rng.random() < 0.7 else Arith("+", Num(x), Num(0.0))
+            e = Arith(rng.choice(["+", "*", "-"]), Method(recv, [(rng.choice(["自增", "自减"]), [Num(float(rng.randrange(1, 5)))])]),
+                      Num(x) if rng.random() < 0.7 else self.gen("num", d - 1))
         elif t == "num":
             op = rng.choice(["+", "-", "*", "/", "|", "%", "+", "-", "*"])
             e = Arith(op, self.gen("num", d - 1), self.gen("num", d - 1 if rng.random() < 0.7 else 0))
